@@ -421,8 +421,11 @@ pub fn checker(obs: &Observation) -> Vec<(String, String)> {
             break;
         }
     }
-    // result of the agent task
+    // result of the agent task (judged only when the trace is a legal one: after a divergence the
+    // reference execution it is compared with is only the closest legal one, not the intended one)
+    let trace_ok = exp.trace == got;
     match (&exp.failed_in, &obs.result) {
+        _ if !trace_ok => {}
         (Some(c), Some(Ok(()))) => out.push((format!("law=agent_result exp=Err got=Ok cascade={}", c), describe("a handler failed but the agent task ended cleanly"))),
         (None, Some(Err(e))) => out.push(("law=agent_result exp=Ok got=Err".to_string(), describe(&format!("no handler failed but the agent task ended with {}", e)))),
         (_, None) => out.push(("law=agent_result got=never_completed".to_string(), describe("the agent task never completed"))),
